@@ -354,6 +354,13 @@ def r6_primitives(ctx, F):
         pushes = b.calls_to('Vec::push')
         ok = len(pushes) == 1 and not b.in_cycle(pushes[0].bb)
         detail = ''
+        if ok and any(x in b.reach([0], cut_blocks=[pushes[0].bb]) for x in b.returns):
+            ok = False
+            detail = 'there is a path that returns without recording the command'
+            ctx.bad(rule, 'Out::%s' % name, b,
+                    'actor::Out::%s can return without pushing its Command::%s (%s): the command is silently '
+                    'dropped for some inputs' % (name, variant, detail))
+            continue
         if ok:
             recv = noref(b.val(pushes[0].args[0]))
             cmd = b.val(pushes[0].args[1])
@@ -376,6 +383,25 @@ def r6_primitives(ctx, F):
     b = F.body('actor::Out::<A>::append')
     ap = b.calls_to('Vec::append')
     ok = len(ap) == 1 and noref(b.val(ap[0].args[0])).key == 1 and noref(b.val(ap[0].args[1])).key == 2
+    if not ok and not ap:
+        # replay form: drain every command of `other` and re-issue it through the like-named method
+        loops = [c for c in b.calls_to('Iterator::next') if b.in_cycle(c.bb)]
+        drains = [c for c in b.calls_to('Vec::drain', 'IntoIterator::into_iter', 'mem::take')
+                  if noref(b.trace(b.val(c.args[0]), ('DerefMut::deref_mut',))).key == 2]
+        sws = [sw for sw in b.switches if sw.kind == 'variant' and
+               set(l for (l, t) in sw.edges if isinstance(l, str)) >= {'Send', 'SetTimer', 'CancelTimer', 'ChooseRandom'}]
+        if loops and drains and len(sws) == 1:
+            want = {'Send': 'send', 'SetTimer': 'set_timer', 'CancelTimer': 'cancel_timer', 'ChooseRandom': 'choose_random'}
+            ok = True
+            for v, meth in want.items():
+                blocks = b.reach([e[1] for e in sws[0].edges_for(v)], cut_blocks=[loops[0].bb])
+                calls = [c for c in b.calls if c.bb in blocks and
+                         (c.short.endswith('Out::' + meth) or c.is_('Vec::push'))]
+                if len(calls) != 1:
+                    ok = False
+            full = all(not c.is_('Vec::drain') or (b.val(c.args[1]).kind == 'agg' and 'RangeFull' in str(b.val(c.args[1]).key[1]))
+                       for c in drains)
+            ok = ok and full and not b.calls_to('Iterator::rev', 'Iterator::skip', 'Iterator::take', 'Iterator::filter')
     ctx.check(ok, rule, 'Out::append', b, good='Out::append moves all commands of `other` to the end of self',
               bad='actor::Out::append does not append other\'s commands to self (order/direction wrong)')
     b = F.body('actor::Out::<A>::broadcast')
